@@ -6,6 +6,7 @@ import (
 	"database/sql"
 	"path"
 	"path/filepath"
+	"strconv"
 	"strings"
 
 	"github.com/pojntfx/stfs/internal/converters"
@@ -94,7 +95,11 @@ func (o *Operations) Move(from string, to string) error {
 			return err
 		}
 
-		hdr.Size = 0 // Don't try to seek after the record
+		if _, ok := hdr.PAXRecords[records.STFSRecordUncompressedSize]; !ok && hdr.Size > 0 {
+			// The record carries no content, so keep the entry's size in its own record (entries of foreign archives have none yet)
+			hdr.PAXRecords[records.STFSRecordUncompressedSize] = strconv.Itoa(int(hdr.Size))
+		}
+		hdr.Size = 0               // Don't try to seek after the record
 		hdr.Format = tar.FormatPAX // The header may stem from a foreign archive in another format, which can't carry our records
 		hdr.Name = path.Join(to, strings.TrimPrefix(strings.TrimPrefix(dbhdr.Name, "/"), strings.TrimPrefix(from, "/")))
 		delete(hdr.PAXRecords, records.STFSRecordReplacesContent) // A move never carries content, even if the last update of the entry did
